@@ -253,7 +253,7 @@ fn plans(thorough: bool) -> Vec<Plan> {
 }
 
 /// valuations of a plan: full product of each cluster (others at base) + all pairs of deviations
-fn valuations(plan: &Plan) -> Vec<Vec<usize>> {
+fn valuations(plan: &Plan, triples: bool) -> Vec<Vec<usize>> {
     let nd = plan.dims.len();
     let base = vec![0usize; nd];
     let mut out: BTreeSet<Vec<usize>> = BTreeSet::new();
@@ -271,6 +271,14 @@ fn valuations(plan: &Plan) -> Vec<Vec<usize>> {
         out.extend(cur);
     }
     for a in 0..nd { for oa in 1..plan.dims[a].options.len() { for b in (a + 1)..nd { for ob in 1..plan.dims[b].options.len() { let mut v = base.clone(); v[a] = oa; v[b] = ob; out.insert(v); } } } }
+    if triples {
+        // thorough: every triple of deviations over all dimensions (capped per type, reported)
+        let cap = 1_500_000usize;
+        'outer: for a in 0..nd { for oa in 1..plan.dims[a].options.len() { for b in (a + 1)..nd { for ob in 1..plan.dims[b].options.len() { for c in (b + 1)..nd { for oc in 1..plan.dims[c].options.len() {
+            let mut v = base.clone(); v[a] = oa; v[b] = ob; v[c] = oc; out.insert(v);
+            if out.len() >= cap { break 'outer; }
+        } } } } } }
+    }
     out.into_iter().collect()
 }
 
@@ -356,7 +364,7 @@ pub fn explore(ctx: &Ctx, mode: Mode) -> (Collector, Value, u64, u64, u64, usize
             per_type.push(json!({"mt": pl.mt, "valuations": msgs.len(), "kind": "rule-free: layout corpus"}));
             for m in msgs { free_corpus.push((pi, m)); }
         } else {
-            let vals = valuations(pl);
+            let vals = valuations(pl, ctx.thorough && mode == Mode::Rules);
             per_type.push(json!({"mt": pl.mt, "dimensions": pl.dims.len(), "valuations": vals.len(), "clusters": pl.clusters.len()}));
             for v in vals { jobs.push((pi, v)); }
         }
@@ -416,7 +424,7 @@ pub fn run(ctx: &Ctx) -> i32 {
     ev.set("states", json!(evals)); ev.set("transitions", json!(transitions.max(1)));
     ev.set("traces_validated_against_impl", json!(validated)); ev.set("evaluations", json!(evals));
     ev.set("distinct_nontrivial", json!(distinct)); ev.set("detail", detail);
-    ev.set("rule", json!("state = one valuation of the rule-relevant abstraction of a type (one option per dimension: presence of each rule-relevant field per sequence for two occurrences, code values incl. every ordered pair of 23E codes, equal/different currencies, matching/non-matching sums, repetition counts 10/11); explored: full product of every rule cluster with the other dimensions at base + every pair of deviations; each state is concretised as MT text (and as patched JSON for zero amounts, 10/11 sequences, copied fields), validated by the library, and compared as a set of error codes with the M3 reference tables; rule-free types: the whole layout corpus must validate clean. transitions = single-dimension changes along the explored valuations; distinct = distinct (type, reported code set)"));
+    ev.set("rule", json!("state = one valuation of the rule-relevant abstraction of a type (one option per dimension: presence of each rule-relevant field per sequence for two occurrences, code values incl. every ordered pair of 23E codes, equal/different currencies, matching/non-matching sums, repetition counts 10/11); explored: full product of every rule cluster with the other dimensions at base + every pair of deviations (thorough: + every triple of deviations, capped at 1.5M valuations per type); each state is concretised as MT text (and as patched JSON for zero amounts, 10/11 sequences, copied fields), validated by the library, and compared as a set of error codes with the M3 reference tables; rule-free types: the whole layout corpus must validate clean. transitions = single-dimension changes along the explored valuations; distinct = distinct (type, reported code set)"));
     ev.set("samples", json!(samples)); ev.set("exhaustive", json!(false));
     ev.assume("M3 reference tables transcribed from the rule statements in src/messages/mtNNN.rs doc comments and error texts (SR 2025); sets of codes are compared, not multiplicities; E17 (documented, option restriction) and MT935 T26 are Unspecified");
     super::finish(ev, &col)
